@@ -166,8 +166,10 @@ def sanitize_trial(meta, t):
     return t
 
 
-def trial_text(i, t, delays=None, rng=None):
+def trial_text(i, t, delays=None, rng=None, sched=None):
     L = ['TRIAL %d' % i]
+    if sched is not None:
+        L.append('SCHED ' + ' '.join(str(x) for x in sched))
     for op in t.pre:
         L.append(model.op_to_line(op))
     for ops in t.threads:
@@ -194,7 +196,7 @@ def parse_trials(text):
     begun = []
     cur = None
     sect = None
-    for chunk in re.split(r'(?m)^(?=BEGIN |TRIAL |PRE$|T \d+$|POST$|END$)', text):
+    for chunk in re.split(r'(?m)^(?=BEGIN |TRIAL |PRE$|T \d+$|POST$|END$|SCHEDLOG)', text):
         if not chunk:
             continue
         head, _, body = chunk.partition('\n')
@@ -209,6 +211,9 @@ def parse_trials(text):
             continue
         if head == 'END':
             cur['done'] = True
+            continue
+        if head.startswith('SCHEDLOG'):
+            cur['schedlog'] = [(int(a), int(b)) for a, b in re.findall(r'D (\d+) (\d+);', head)]
             continue
         recs = parse_records(body)
         if head == 'PRE':
@@ -485,6 +490,15 @@ def run(prop, tier, seed, config='tsan'):
             samples += r['samples'][:1]
     for key, txt in tot['races'].items():
         v.violation('tsan|' + key, txt[:3000], dict(engine='thr', tsan_report=txt))
+    systematic = None
+    try:
+        stot, sviol, sinc, ssamples = run_systematic(seed, tier)
+        systematic = dict(stot, sample=ssamples[:1])
+        for x in sviol:
+            v.violation(x['key'], x['detail'], dict(engine='thr', trial=x['trial'], history=x.get('history')))
+        v.inconclusive += sinc
+    except build.BuildError as ex:
+        v.inconclusive.append('scheduling-mutex configuration does not build: %s' % str(ex)[-1200:])
     if tot['trials'] < cfg['trials'] * 0.9:
         v.inconclusive.append('only %d of %d trials completed' % (tot['trials'], cfg['trials']))
     if tot['lin']['checked'] and tot['lin']['budget'] > 0.2 * tot['lin']['checked']:
@@ -495,7 +509,8 @@ def run(prop, tier, seed, config='tsan'):
         samples=samples[:2], operations=tot['ops'], trials_by_thread_count=tot['threads_hist'],
         calls=tot['calls'], calls_accepted=tot['accepted'], reports_observed=tot['reports'],
         overlapping_operation_pairs_observed=tot['concurrent_pairs'],
-        tsan_distinct_reports=len(tot['races']), linearizability=tot['lin'], config=config)
+        tsan_distinct_reports=len(tot['races']), linearizability=tot['lin'], config=config,
+        systematic_lock_order_enumeration=systematic)
     v.assumptions = ['ThreadSanitizer sees only the executions that ran and only synchronisation it intercepts',
                      'sequential reference model vlib/model.py; creation of a sequenced expectation is a compound operation (register / set bounds / become callable)']
     return v.finish()
@@ -555,3 +570,90 @@ def replay(prop, path, reps=300):
         return 1
     print('replay: %d repetitions of the trial, no violation of %s on the current tree' % (reps, prop))
     return 0
+
+
+
+# ---- systematic part: all lock-acquisition orders of tiny programs (scheduling mutex, replay DFS) ----
+def _sys_worker(args):
+    exe, metapath, seed, chunk, nprog, cap = args
+    meta = json.load(open(metapath))
+    rng = random.Random((seed * 48611 + chunk * 15485863) & 0xffffffff)
+    out = dict(programs=0, schedules=0, exhaustive_programs=0, viol=[], inconclusive=[], decisions=0, lin_nodes=0, max_sched=0, samples=[])
+    logdir = tempfile.mkdtemp(prefix='tsanlog-', dir=os.path.join(VERIF, 'out'))
+    try:
+        for pi in range(nprog):
+            nth = rng.choice([2, 2, 3])
+            t = sanitize_trial(meta, gen_trial(meta, rng, nth, tiny=True))
+            frontier = [[]]
+            done = 0
+            exhausted = True
+            while frontier:
+                if done >= cap:
+                    exhausted = False
+                    break
+                batch = frontier[:60]
+                frontier = frontier[60:]
+                text = ''.join(trial_text(i, t, sched=pre) for i, pre in enumerate(batch))
+                rc, so, se, to = run_thr(exe, text, logdir, 120)
+                parsed, begun = parse_trials(so)
+                if to or rc != 0:
+                    bad = [b for b in begun if b not in parsed or not parsed[b]['done']]
+                    which = bad[0] if bad else 0
+                    out['viol'].append(dict(key='systematic|%s' % ('deadlock' if to else 'crash'),
+                                            detail='tiny program under the deterministic scheduler %s with schedule prefix %s: %s' % ('hangs' if to else 'dies', batch[which], se[-1500:]),
+                                            trial=trial_text(0, t, sched=batch[which])))
+                    break
+                for i, pre in enumerate(batch):
+                    if i not in parsed or not parsed[i]['done']:
+                        continue
+                    rec = parsed[i]
+                    dec = rec.get('schedlog', [])
+                    done += 1
+                    out['schedules'] += 1
+                    out['decisions'] += len(dec)
+                    chosen = [c for _, c in dec]
+                    for j in range(len(pre), len(dec)):
+                        w, c = dec[j]
+                        for alt in range(nth):
+                            if alt != c and (w >> alt) & 1:
+                                frontier.append(chosen[:j] + [alt])
+                    for a, d in conservation(meta, t, rec):
+                        out['viol'].append(dict(key='systematic|conservation|' + a, detail=d, trial=trial_text(0, t, sched=chosen)))
+                    r = lin.check(meta, t, rec, budget=30000)
+                    out['lin_nodes'] += r['nodes']
+                    if r['verdict'] == 'violation':
+                        out['viol'].append(dict(key='systematic|linearizability|' + r.get('why', 'no-order'), detail='lock-acquisition order %s: %s' % (chosen, r['detail']),
+                                                trial=trial_text(0, t, sched=chosen), history=r.get('history')))
+                    elif r['verdict'] == 'budget':
+                        out['inconclusive'].append('linearizability search over budget in systematic mode')
+                if len(out['viol']) > 5:
+                    break
+            out['programs'] += 1
+            out['max_sched'] = max(out['max_sched'], done)
+            if exhausted and not frontier:
+                out['exhaustive_programs'] += 1
+            if len(out['samples']) < 1:
+                out['samples'].append(dict(program=trial_text(0, t).split('\n'), schedules_enumerated=done, all=exhausted))
+        for kind, key, txt in tsan_reports(logdir):
+            out['viol'].append(dict(key='systematic|tsan|' + key, detail=txt[:2000], trial=''))
+    finally:
+        shutil.rmtree(logdir, ignore_errors=True)
+    return out
+
+
+def run_systematic(seed, tier):
+    exe, meta = build_thr('tsan-cm')
+    metapath = os.path.join(os.path.dirname(exe), 'src', 'shapes.json')
+    nprog, cap, nch = (4, 400, 16) if tier == 'quick' else (40, 5000, 64)
+    tasks = [(exe, metapath, seed, c, nprog, cap) for c in range(nch)]
+    tot = dict(programs=0, schedules=0, exhaustive_programs=0, decisions=0, lin_nodes=0, max_sched=0)
+    viol, inconc, samples = [], [], []
+    with Pool(min(build.NCPU, len(tasks))) as pool:
+        for r in pool.imap_unordered(_sys_worker, tasks):
+            for k in ('programs', 'schedules', 'exhaustive_programs', 'decisions', 'lin_nodes'):
+                tot[k] += r[k]
+            tot['max_sched'] = max(tot['max_sched'], r['max_sched'])
+            viol += r['viol']
+            inconc += r['inconclusive']
+            samples += r['samples'][:1]
+    return tot, viol, inconc, samples
